@@ -113,12 +113,17 @@ ParallelOutcome(ls, iks, els, R, pi, txids, logids) ==
       res |-> [i \in DOMAIN els |-> IF i \in R THEN acc.res[pos(i)] ELSE SkippedRes],
       rollback |-> FALSE, reqfail |-> FALSE, httpok |-> ~acc.failed /\ R = DOMAIN els]
 
-ParallelOutcomes(ls, iks, els, opts, txids, logids) ==
+\* aborted: elements the DATABASE refused to run (victims of a lock conflict with a sibling element, outside the
+\* retry loop of the write path). They have no effect and are not bound by the skipping rule. Empty in the bounded
+\* model; observed in trace validation.
+ParallelOutcomesA(ls, iks, els, opts, txids, logids, aborted) ==
   LET all == {ParallelOutcome(ls, iks, els, R, pi, txids, logids) : <<R, pi>> \in
-                 UNION {{<<R, pi>> : pi \in Perms(R)} : R \in (SUBSET DOMAIN els) \ {{}}}}
-      valid(o) == \/ \A i \in DOMAIN els : o.res[i].run
+                 UNION {{<<R, pi>> : pi \in Perms(R)} : R \in (SUBSET (DOMAIN els \ aborted))}}
+      valid(o) == \/ \A i \in DOMAIN els \ aborted : o.res[i].run
                   \/ (~opts.cof /\ \E f \in DOMAIN els : o.res[f].run /\ ~o.res[f].ok)
-  IN {o \in all : valid(o)}
+  IN {o \in all : valid(o) /\ (aborted = {} => \E i \in DOMAIN els : o.res[i].run)}
+
+ParallelOutcomes(ls, iks, els, opts, txids, logids) == ParallelOutcomesA(ls, iks, els, opts, txids, logids, {})
 
 (***************************************************************************)
 (* Theorems of the definition (checked by TLC on every enumerated case)     *)
